@@ -63,10 +63,28 @@ def group(rng, data, key, mn, mx, nseg, envs=('zero', 'ff', 'rnd')):
     from replicat.utils import adapters
     reused = adapters.gclmulchunker(min_length=mn, max_length=mx)
     chunker.adapter([b'warm-up data that a previous call has processed' * 9], key, mn, mx, reused)
+    # ... and objects whose previous stream was ABANDONED: the consumer stopped after a few chunks (what an aborted snapshot does to the
+    # repository's chunker), or the piece iterator raised in mid-stream
+    abandoned = adapters.gclmulchunker(min_length=mn, max_length=mx)
+    g = abandoned(iter([rng.randbytes(3 * mx + 5), rng.randbytes(2 * mx + 1), rng.randbytes(mx)]), params=key)
+    next(g, None)
+    g.close()
+    broken = adapters.gclmulchunker(min_length=mn, max_length=mx)
+
+    def failing():
+        yield rng.randbytes(2 * mx + 3)
+        raise OSError('read error in the middle of a stream')
+    try:
+        list(broken(failing(), params=key))
+    except OSError:
+        pass
     for sid, seg in enumerate(segs):
         pieces = split(data, seg)
         evs.append(event('adapter', sid, seg, chunker.adapter(pieces, key, mn, mx), data, 'fresh'))
         evs.append(event('adapter', sid, seg, chunker.adapter(pieces, key, mn, mx, reused), data, 'reused-object'))
+        if sid < 3:
+            evs.append(event('adapter', sid, seg, chunker.adapter(pieces, key, mn, mx, abandoned), data, 'object-with-an-abandoned-stream'))
+            evs.append(event('adapter', sid, seg, chunker.adapter(pieces, key, mn, mx, broken), data, 'object-whose-input-failed'))
         for env in envs:
             evs.append(event('ext', sid, seg, chunker.ext(pieces, key, mn, mx, env), data, env))
             evs.append(event('lib', sid, seg, chunker.libcuts(pieces, key, mn, mx, env), data, env))
